@@ -3,6 +3,8 @@ package main
 import (
 	"fmt"
 	"strings"
+
+	"golang.org/x/tools/go/ssa"
 )
 
 func init() { register("C20", c20) }
@@ -33,6 +35,27 @@ func c20(c *Check) {
 		a := c.P.ArgExprs(cs)[2]
 		c.Req(a.String() == m.X("{V}"), "C20/begin-blocker", "accumulator starts from NewCoins() and is only extended by Add", cs.Ins.Pos(), a.String(), "the coins sent are "+a.String())
 	}
+
+	c.Rule("C20/empty-pool-skips-only-that-denomination", "when one denomination's pool is empty the loop continues with the next reward (the zero-balance edge returns to the loop), it does not end the release of the others", 1)
+	{
+		fa := c.P.FA(bb)
+		x := c.P.Ex(bb)
+		var readBlock *ssa.BasicBlock
+		for _, cs := range c.Calls(bb, "rvesting/keeper.(Keeper).GetRemainingCoin") {
+			readBlock = cs.Ins.Block()
+		}
+		ok, found := false, false
+		for _, i := range fa.ifs {
+			if x.E(i.Cond).String() == m.X("cosmos-sdk/types.(Coin).IsZero({REM})") {
+				found = true
+				ok = readBlock != nil && fa.reachFrom(i.Block().Succs[0])[readBlock.Index]
+			}
+		}
+		c.Req(found && ok, "C20/empty-pool-skips-only-that-denomination", funcName(bb), bb.Pos(), "zero-balance edge re-enters the loop", "the zero-balance branch leaves the loop (or is missing): once one pool is empty no later denomination vests")
+	}
+
+	c.Rule("C20/parameter-binding", "rvesting ParamSetPairs: each key is bound to its own field, and PerBlockReward is validated by validatePerBlockReward itself on every parameter change", 3)
+	paramSetPairsRule(c, "C20/parameter-binding", "x/rvesting/types.Params.ParamSetPairs", map[string]string{"PerBlockReward": "fn:rvesting/types.validatePerBlockReward"})
 
 	c.Rule("C20/keeper", "SendVestedCoins is exactly one module-to-module transfer from the rvesting pool to the configured collector; GetRemainingCoin reads the pool account's balance; the collector is wired to the fee collector; rvesting runs before distribution", 5)
 	c.Spec("C20/keeper", Macros{}, FnSpec{Fn: "x/rvesting/keeper.Keeper.SendVestedCoins",
